@@ -2502,10 +2502,11 @@ func (c *Conn) negotiateVersionClient(ctx context.Context) ([]*dtlsflight.Packet
 				return nil, err
 			}
 			if !c.handshakeConfig.DisableRetransmitBackoff {
-				retransmitInterval *= 2
-			}
-			if retransmitInterval > 60*time.Second {
-				retransmitInterval = 60 * time.Second
+				doubled := retransmitInterval * 2
+				if doubled > 60*time.Second {
+					doubled = max(60*time.Second, retransmitInterval)
+				}
+				retransmitInterval = doubled
 			}
 
 			continue
